@@ -46,7 +46,7 @@ def make(spec, loop):
 LEVEL = 'model_checking'
 RULE = ('bursts of K in {49,50,51,99,100,120} dispatches issued in one synchronous stretch from main, from inside an async handler and from inside a sync handler; '
         'max_history_size in {None, 5, 50}; with and without an existing backlog behind a paused handler; rejected events re-offered after the backlog drained; finally '
-        'wait_until_idle(). all schedules <= L deviations. non-trivial = at least one dispatch was rejected or the burst reached the queue capacity; distinct = distinct recorder traces')
+        'wait_until_idle(); plus the grammar-generated corpus (vsched/gen.py) with a 0.5 s handler time-out on the root event (accepted events are never lost, whatever the time-out interrupts). all schedules <= L deviations. non-trivial = at least one dispatch was rejected or the burst reached the queue capacity; distinct = distinct recorder traces')
 ASSUMPTIONS = ['event-state watching is off in these large scenarios; verdicts use dispatch records, handler entry records and the final snapshot']
 
 
@@ -110,12 +110,19 @@ def families(tier):
         out.append(dict(prop='C14', family='c14.burst.raced', id=f'c14/raced-h{hist}-{src}', cfg=dict(bound=2 if deep else 1, cap=6000 if deep else 700, window=0.25, max_targets=1, busy=True),
                         params=dict(K=52, hist=hist, src=src, reoffer=True),
                         scn=dict(buses={'A': dict(hist=hist)}, order=['A'], handlers=hs, main=main, actors=actors, forwards=[], settle=3.0, no_watch=True)))
+    # the grammar-generated corpus shared by the bus properties (vsched/gen.py) with a 0.5 s handler time-out on the root event: whatever a time-out
+    # interrupts (a handler waiting for its turn to process an awaited child inline, a sibling, the child itself), every event a dispatch() ACCEPTED
+    # still ends completed, and wait_until_idle() returns
+    from .. import gen
+    out += gen.family('C14', tier, params=dict(K=0, hist=50, src='async', reoffer=False), timeouts=(0.5,), main_mode='idle')
     return out
 
 
 def trigger(spec, res):
     if spec.get('mode') == 'noloop':
         return True
+    if spec['family'].startswith('c14.generated'):
+        return any(r[2] == 'dispatch' and r[3] != 'main' and r[6] == 'ok' for r in res['log'])
     n_rej = sum(1 for r in res['log'] if r[2] == 'dispatch' and r[6].startswith('raised'))
     if spec['family'].endswith('evicted_while_queued'):
         return (spec['params']['hist'] or 99) < spec['params']['K']  # the backlog exceeds the history: pending events get evicted while queued
@@ -170,7 +177,7 @@ def oracle(spec, res):
                 out.append(V('rejected_event_was_processed', ev, in_handler=in_handler))
         elif v == 'done':
             n = cnt.get(ev, 0)
-            if n != 1 and ev[0] in 'XYP':
+            if n != 1 and ev[0] in 'XYP' and not spec['family'].startswith('c14.generated'):  # (generated corpus: several handlers per event, and a parent's time-out legitimately cancels a child before it starts)
                 out.append(V('accepted_event_dropped' if n == 0 else 'accepted_event_handled_twice', f'{ev}: handled {n} times; dispatch outcomes {outcomes}', in_handler=in_handler))
     # per (bus, event): a rejection must not leave the bus in event_path (a later forward into that bus would be skipped as a 'loop')
     per_bus = {}
